@@ -238,8 +238,10 @@ def run(chk):
         geometric_knn_conditional_mutual_information, conditional_mutual_information)
     from scipy.spatial.distance import cdist
     rng = np.random.default_rng(chk.seed)
+    from concurrent.futures import ThreadPoolExecutor
+    _mx = ThreadPoolExecutor(max_workers=1).submit(lib.check_theorems, "C12Mx")     # beside the stdlib-style file's pass
     chk.theorems()
-    for r in lib.check_theorems("C12Mx"):      # mathcomp theorems (rank of the centred neighbourhood) live in a file of their own
+    for r in _mx.result():      # mathcomp theorems (rank of the centred neighbourhood) live in a file of their own
         chk.oblige("theorem", r["name"], r["ok"], r.get("error", "") or ("axioms: " + (", ".join(r["axioms"]) or "none")))
         chk.extra.setdefault("theorem_axioms", {})[r["name"]] = r["axioms"]
     if chk.tier == "thorough":
